@@ -469,7 +469,41 @@ static std::string handle_met(const std::vector<std::string> &t)
       }
       else
       {
-        with_attrs(a, [&](const common::KeyValueIterable &kv) { add_kv(kv, ov % 2 == 1); });
+        // the attribute set through each of the API's forms in rotation - a KeyValueIterable, a container (the template
+        // overloads) and an initializer list, each with and without a Context: they must all record the same measurement
+        const bool with_ctx = ov % 2 == 1;
+        const size_t form   = (ov / 2) % 3;
+        auto through = [&](auto &inst, auto val) {
+          std::string sval = "s" + std::to_string(a);
+          if (form == 1)
+          {
+            std::map<std::string, common::AttributeValue> m{{"k", static_cast<int64_t>(a)}};
+            if (a % 3 == 2) m["z"] = nostd::string_view(sval);
+            else if (a % 3 == 0) m["b"] = true;
+            if (with_ctx) inst->Add(val, m, octx);
+            else inst->Add(val, m);
+          }
+          else if (a % 3 == 1)
+          {
+            if (with_ctx) inst->Add(val, {{"k", static_cast<int64_t>(a)}}, octx);
+            else inst->Add(val, {{"k", static_cast<int64_t>(a)}});
+          }
+          else if (a % 3 == 2)
+          {
+            if (with_ctx) inst->Add(val, {{"z", nostd::string_view(sval)}, {"k", static_cast<int64_t>(a)}}, octx);
+            else inst->Add(val, {{"z", nostd::string_view(sval)}, {"k", static_cast<int64_t>(a)}});
+          }
+          else
+          {
+            if (with_ctx) inst->Add(val, {{"k", static_cast<int64_t>(a)}, {"b", true}}, octx);
+            else inst->Add(val, {{"k", static_cast<int64_t>(a)}, {"b", true}});
+          }
+        };
+        if (form == 0) with_attrs(a, [&](const common::KeyValueIterable &kv) { add_kv(kv, with_ctx); });
+        else if (h.cl) through(h.cl, static_cast<uint64_t>(v));
+        else if (h.cd) through(h.cd, dv);
+        else if (h.ul) through(h.ul, static_cast<int64_t>(v));
+        else through(h.ud, dv);
       }
       outs.push_back("ok");
     }
